@@ -387,7 +387,9 @@ const ODD_VALUES: [&str; 30] = [
     "", "a", "b", "x y", " ", "  two  ", "ü", "日本語", "🦆", "handle:abcdefghijklmnopqrst", "handle:", "handle:x1", "true", "false", "0", "1", "-1", "$x", "${a0_0}", "%{o0}", "# c", "\"q\"", "a\nb", "\r", "=z", "\\", "\\${x}", "\t", "a,b", "-r",
 ];
 /// word-like values
-const SAFE_VALUES: [&str; 14] = ["a", "b", "c", "x y", "A_1.-", "ü", "日本語", "handle:abcdefghijklmnopqrst", "7", "0", "key 1", "Z", "é è", "long-value_with.many-parts"];
+// (members / keys that differ only in letter case — `a` `A`, `z` `Z`, sigma / final sigma / capital sigma,
+// `k` `K` and the Kelvin sign — are DIFFERENT members)
+const SAFE_VALUES: [&str; 22] = ["a", "b", "c", "x y", "A_1.-", "ü", "日本語", "handle:abcdefghijklmnopqrst", "7", "0", "key 1", "Z", "é è", "long-value_with.many-parts", "A", "z", "Ü", "σ", "ς", "Σ", "k", "\u{212a}"];
 /// separators of the source-run array_join: empty, blank, longer than one char, multi-byte
 const JOIN_SEPS: [&str; 12] = [",", ", ", "", "-", "ü", " ", "日本", "--", " | ", "🦆🦆", "ab", "é "];
 const INDEXES: [&str; 14] = ["-1", "x", "", "+1", "1.0", " 1", "1 ", "18446744073709551616", "18446744073709551615", "007", "+", "-0", "٣", "0x1"];
